@@ -29,7 +29,7 @@ TEXT = {
               'the text and leaves output and trim state untouched (capture_seq, captureM_keeps_tw), a loop restores its variable '
               "and forloop on normal end, break and continue (loop_restores), the include handler is handed exactly the includer's current "
               'variable map (include_sees_vars; that the engine\'s handler renders the file with it is C14) and the assignments of the included file do not flow back (include_isolated). Capture equivalence '
-              '(capture_equiv, capture_equiv_root, capture_equiv_root_conv/_iff, capture_equiv_engine for the engine\'s own context, capture_equiv_root_err for a failing body: the same error re-wrapped at the capture tag, but the partial output F wrote before failing is not written by the capture form), for every context whose include handler renders into its own buffer (IncQuiet) and whose output layer prints a string as its bytes (both proved for the engine\'s), on a writer that does not fail: for every body that renders normally in place, '
+              '(capture_equiv, capture_equiv_root, capture_equiv_root_conv/_iff, capture_equiv_engine for the engine\'s own context, capture_equiv_root_err for a failing body: the same error re-wrapped at the capture tag, but the partial output F wrote before failing is not written by the capture form), for every context whose include handler renders into its own buffer (IncQuiet, a definition of Proofs/RunLemmas.lean) and whose output layer prints a string as its bytes (both proved for the engine\'s: stdOut_str here, incQuiet_mkCtx in Proofs.RunLemmas, audited under C13; capture_equiv_engine uses both), on a writer that does not fail: for every body that renders normally in place, '
               'capture-then-print puts exactly the same bytes through the trim writer (the object prints the captured text as a value, through WriteVerbatim: all of it has reached the writer, nothing is pending afterwards) and leaves the same variables plus the '
               'captured one - in any state whose pending text has no trailing white space and whose trim flag is clear, in '
               'particular for whole templates, where the two render normally under exactly the same conditions; each of the two state '
@@ -50,7 +50,7 @@ TEXT = {
               'in place: capture_trailing_trim_differs). The scope rules are pre/post-condition rules on the variables; which '
               'branch or iteration runs enters through their hypotheses; the loop rules are stated for at most one else clause, assign_scope_global for a literal value, a body '
               'that ends normally and no later write of the variable in that body. include_sees_vars is about the abstract include handler of the context (the engine\'s handler: C14). '
-              'The source-level theorems need a clean item list (Clean, DESIGN 7.1).'),
+              'The source-level theorems need a clean item list (Clean, decidable, Proofs/E2ESpell.lean; the shapes outside it are listed under C19).'),
     "technique": ('Lean 4 proof (state-threading lemmas on the render monad; independence of the render from the trim-writer state; '
               'frame and pre/post-condition rules by mutual induction over the node tree) + model/implementation correspondence + independent '
               'reference and metamorphic oracle'),
